@@ -242,6 +242,10 @@ def _factor_long_intermediate(expr: e.Expr, itmd: list[EriOrbenergy],
                     variant_data['sub'].get(s, s)
                     for s in itmd_contracted_symbols
                 )
+                # a contracted index of the itmd has to be a contracted index
+                # of the term: the sum over a target index can not be factored
+                if any(s in term.eri.target for s in contracted_itmd_indices):
+                    continue
                 remainder_indices = set(remainder.idx)
                 if any(s in remainder_indices
                        for s in contracted_itmd_indices):
@@ -432,7 +436,15 @@ def _factor_short_intermediate(expr: e.Expr, itmd: EriOrbenergy,
         # compare the term and the itmd term
         variants = _compare_terms(term, itmd, data, itmd_data)
 
-        if variants is None:
+        # a contracted index of the itmd has to be a contracted index of the
+        # term: the sum over a target index can not be factored
+        if variants is not None:
+            variants = [
+                var for var in variants
+                if not any(var['sub'].get(s, s) in term.eri.target
+                           for s in itmd_contracted_symbols)
+            ]
+        if not variants:
             factored += term.expr
             continue
 
